@@ -23,5 +23,5 @@ with open('/verif/seeded/INDEX.md', 'w') as o:
     o.write('| id | property | when it arrived | detected by quick check now | reported as | change (first line of the notes) |\n|---|---|---|---|---|---|\n')
     for r in rows:
         o.write('| ' + ' | '.join(x.replace('|', '/') for x in r) + ' |\n')
-    o.write(f'\n{sum(1 for r in rows if r[3]=="yes")} of {len(rows)} detected by the current quick checks; of the changes of rounds 2 to 8 (m3 - m16) {sum(1 for r in rows if r[2]=="yes")} of {sum(1 for r in rows if not r[2].startswith("round 1"))} were detected by the checks as they were when the change arrived; of the 40 round-1 changes (m1, m2) 23 were (per-change table in DESIGN.md §8).\n')
+    o.write(f'\n{sum(1 for r in rows if r[3]=="yes")} of {len(rows)} detected by the current quick checks; of the changes of rounds 2 onwards (m3 and later) {sum(1 for r in rows if r[2]=="yes")} of {sum(1 for r in rows if not r[2].startswith("round 1"))} were detected by the checks as they were when the change arrived; of the 40 round-1 changes (m1, m2) 23 were (per-change table in DESIGN.md §8).\n')
 print(len(rows), 'entries')
